@@ -295,7 +295,25 @@ fn signal_scenario(name: &str) -> Result<String, String> {
     res
 }
 
+/// E2E_LOG=1: print actix-server's own log lines (tracing -> log) to stderr, with a timestamp
+struct StderrLog(Instant);
+impl log::Log for StderrLog {
+    fn enabled(&self, m: &log::Metadata<'_>) -> bool {
+        m.target().starts_with("actix_server")
+    }
+    fn log(&self, r: &log::Record<'_>) {
+        if self.enabled(r.metadata()) {
+            eprintln!("[{:>8.3}] {:?} {} {}", self.0.elapsed().as_secs_f64(), std::thread::current().name(), r.level(), r.args());
+        }
+    }
+    fn flush(&self) {}
+}
+
 pub fn run(line: &str) -> String {
+    if std::env::var_os("E2E_LOG").is_some() {
+        let _ = log::set_logger(Box::leak(Box::new(StderrLog(Instant::now()))));
+        log::set_max_level(log::LevelFilter::Trace);
+    }
     let name = line.trim();
     let r = if name.starts_with("signal_") {
         signal_scenario(name)
